@@ -221,6 +221,61 @@ def rule_tables(chk, funcs, table):
             chk.decide(bool(shape and pairs and arr), 'dispatch-table', inst + ':arguments', node=c, file=GS, func=M.qualname(fn),
                        detail_bad='arguments (%s) are not six different state values (left, right density, pressure, velocity) followed by gamma, niter, tol and a matrix(2) result array of this function' % ', '.join(rest),
                        detail_ok='(%s)' % ', '.join(rest))
+    # the left and the right state handed to the solver are reconstructed the same way from the two particles: one renaming of the locals (j-side quantities <-> i-side
+    # quantities, whatever they are called; `+ slope` <-> `- slope`) turns the left density, pressure and velocity into the right ones - found on the first pair, it must fit
+    # the other two.  A right velocity extrapolated with the left particle's length is not the mirror image of the left one: the problem solved for (i <- j) is then not the
+    # reflection of the one solved for (j <- i)
+    for c in M.calls(g):
+        if M.call_name(c) != 'riemann_solve' or isinstance(c.args[0], ast.Constant) or len(c.args) < 7:
+            continue
+        fn = M.enclosing_func(c)
+        if fn is None or not all(isinstance(a_, ast.Name) for a_ in c.args[1:7]):
+            continue
+        from verif_static import norm as N_
+        ld = N_.local_defs([fn])
+
+        def first_def(nm):
+            cands = [a_ for a_ in ast.walk(fn) if isinstance(a_, ast.Assign) and len(a_.targets) == 1 and compact(a_.targets[0]) == nm and a_.lineno < c.lineno]
+            return N_.inline(sorted(cands, key=lambda a_: a_.lineno)[0].value, dict((k_, v_) for k_, v_ in ld.items() if k_ != nm)) if cands else None
+
+        def unify(a, b, mp):
+            # leaves: names / subscripts / attributes, compared as texts under a one-to-one renaming; + and - may be exchanged (the slope term changes sign)
+            leaf = (ast.Name, ast.Subscript, ast.Attribute)
+            if isinstance(a, leaf) and isinstance(b, leaf):
+                ta, tb = compact(a), compact(b)
+                if mp.get(ta, tb) != tb or mp.get(tb, ta) != ta:
+                    return False
+                mp[ta], mp[tb] = tb, ta
+                return True
+            if type(a) is not type(b):
+                return False
+            if isinstance(a, ast.Constant):
+                return a.value == b.value
+            if isinstance(a, ast.BinOp):
+                ops_ok = type(a.op) is type(b.op) or (isinstance(a.op, (ast.Add, ast.Sub)) and isinstance(b.op, (ast.Add, ast.Sub)))
+                return ops_ok and unify(a.left, b.left, mp) and unify(a.right, b.right, mp)
+            if isinstance(a, ast.UnaryOp):
+                return type(a.op) is type(b.op) and unify(a.operand, b.operand, mp)
+            if isinstance(a, ast.Call):
+                return compact(a.func) == compact(b.func) and len(a.args) == len(b.args) and all(unify(x, y, mp) for x, y in zip(a.args, b.args))
+            return compact(a) == compact(b)
+        names6 = [a_.id for a_ in c.args[1:7]]
+        defs6 = [first_def(nm) for nm in names6]
+        if any(d_ is None for d_ in defs6):
+            continue
+        mp, okm, whym = {}, True, ''
+        for k_ in (0, 2, 4):
+            trial = dict(mp)
+            if not unify(defs6[k_], defs6[k_ + 1], trial):
+                okm = False
+                whym = '`%s = %s` and `%s = %s` are not each other under the renaming %s that relates the pairs before them' % (
+                    names6[k_], U(defs6[k_])[:70], names6[k_ + 1], U(defs6[k_ + 1])[:70], dict((a_, b_) for a_, b_ in sorted(mp.items()) if a_ < b_))
+                break
+            mp = trial
+        chk.decide(okm, 'dispatch-table', 'call@%s:left-right-mirror' % M.qualname(fn), node=c, file=GS, func=M.qualname(fn),
+                   detail_bad='%s: the left and right states are not reconstructed as mirror images, so the pair (i, j) and the pair (j, i) solve different Riemann problems and the pair '
+                              'force is not equal and opposite' % whym,
+                   detail_ok='one renaming %s relates (left, right) density, pressure and velocity' % dict((a_, b_) for a_, b_ in sorted(mp.items()) if a_ < b_ and a_ != b_))
     # HELPERS closes over everything the dispatcher can reach
     t, _ = functions()
     helpers = None
